@@ -16,7 +16,7 @@ RECURSIVE Norm(_)
 Norm(p) == [p EXCEPT !.attrs = {p.attrs[i] : i \in 1..Len(p.attrs)},
                      !.params = [i \in 1..Len(p.params) |-> Norm(p.params[i])]]
 
-Fields == <<"const", "volatile", "storage", "spec", "tmpl", "hasdecl", "ptrs", "name", "func",
+Fields == <<"const", "volatile", "storage", "spec", "tmpl", "type", "hasdecl", "ptrs", "name", "func",
             "hasparams", "params", "fconst", "array", "attrs", "init">>
 FirstDiff(a, b) == LET d == {i \in 1..Len(Fields) : a[Fields[i]] # b[Fields[i]]}
                    IN IF d = {} THEN "" ELSE Fields[CHOOSE i \in d : \A j \in d : i <= j]
